@@ -238,6 +238,9 @@ void list_output_webasm(
 
     for (n = 0; n < count; n++)
     {
+      // A varint can be any length, hex[] can't.
+      if (strlen(hex) + 4 > sizeof(hex)) { break; }
+
       opcode = memory->read8(start + n);
 
       snprintf(temp, sizeof(temp), "%02x ", opcode);
@@ -292,6 +295,9 @@ void disasm_range_webasm(
 
     for (n = 0; n < count; n++)
     {
+      // A varint can be any length, hex[] can't.
+      if (strlen(hex) + 4 > sizeof(hex)) { break; }
+
       opcode = memory->read8(start + n);
 
       snprintf(temp, sizeof(temp), "%02x ", opcode);
